@@ -1,6 +1,7 @@
 package main
 
 import (
+	"go/constant"
 	"go/types"
 	"strconv"
 	"strings"
@@ -53,6 +54,7 @@ func runC07(c *Ctx) {
 	c.rule("V6", "a method of the filesystem that is handed an already opened file consults the closed guard before it touches that handle: a handle taken before Close() serves nothing afterwards", 4)
 	c.rule("V7", "where the guard found the filesystem closed, the error returned is the guard's own ('failed condition'), not a fresh error of another kind", 30)
 	c.rule("Z5", "legal names are not refused: the zip-slip tests of the extraction look for path elements equal to \"..\", never for the substring (a..b.txt, ..leading and trailing.. are names the zip side produces)", 1)
+	c.rule("Z7", "zip: the archive is written into a handle that starts empty (CreateFile, or OpenFile with O_TRUNC / O_EXCL) — a shorter archive written over a longer one keeps the old central directory at its end", 1)
 	c.rule("Z6", "extraction: the name of an entry — a path relative to the archive — is never handed to the filesystem as it is (it would be resolved against the working directory of the process); the filesystem only sees the sanitised extraction path", 1)
 	c.rule("Z4", "unzip: every way round the entry loop that creates an entry appends its path (or the paths of the nested extraction) to the list returned, in that same iteration", 2)
 	c.rule("Z2", "unzip: file times restored from the entry's info after the copy; directory infos recorded and restored after the loop before the successful return", 3)
@@ -65,6 +67,7 @@ func runC07(c *Ctx) {
 	c.c07UnzipTimes()
 	c.c07NamesVerbatim()
 	c.c07NoProbeOfEntryNames()
+	c.c07ArchiveReplaces()
 	c.c07Listed()
 	c.c07Handles()
 	c.c07DotsInNames()
@@ -978,4 +981,70 @@ func (c *Ctx) c07NoProbeOfEntryNames() {
 	c.Extra["fs_path_arguments_in_extraction"] = n
 	c.check(bad == "" && n > 0, "Z6", fname(unzip)+"/entry-names-not-probed", c.pos(unzip.Pos()), "no method of the filesystem is handed an entry's own name",
 		"the entry's own name is handed to the filesystem at "+bad+": it is a path relative to the archive, which the filesystem resolves against the working directory of the process — a file of that name lying there changes what the extraction lists and counts")
+}
+
+// c07ArchiveReplaces (Z7): "zipping it and unzipping the result reproduces the same relative paths…". A zip reader looks
+// for the central directory from the END of the file: an archive written from offset 0 over a longer, older one is read
+// back as the old archive (or as garbage). What zip.NewWriter writes into must start empty.
+func (c *Ctx) c07ArchiveReplaces() {
+	f := c.fnOpt(fsPkgRel, "(*VFS).ZipWithContextAndLimitsAndExclusionPatterns")
+	if f == nil {
+		return
+	}
+	key := fname(f) + "/archive-starts-empty"
+	var nw *ssa.Call
+	allInstrs(f, func(in ssa.Instruction) {
+		if cl, ok := in.(*ssa.Call); ok && calleeFull(&cl.Call) == "archive/zip.NewWriter" {
+			nw = cl
+		}
+	})
+	if nw == nil {
+		c.violate("Z7", key, c.pos(f.Pos()), "no zip.NewWriter in the zip entry point")
+		return
+	}
+	good, how := false, "not recognised"
+	for _, l := range sources(nw.Call.Args[0], deriveOpts{through: func(n string) bool { return strings.Contains(n, "safeio.") || strings.HasPrefix(n, "bufio.") }}) {
+		ex, ok := l.(*ssa.Extract)
+		if !ok {
+			continue
+		}
+		oc, ok := ex.Tuple.(*ssa.Call)
+		if !ok {
+			continue
+		}
+		name, args, isFs := fsMethodCall(oc)
+		if !isFs {
+			continue
+		}
+		switch name {
+		case "CreateFile", "Create":
+			good, how = true, name
+		case "OpenFile":
+			if len(args) >= 2 {
+				if fl, isC := constInt(args[1]); isC {
+					// O_TRUNC = 0x200, O_EXCL = 0x80 on the platforms analysed (checked against package os below)
+					if fl&c07osFlag(c, "O_TRUNC") != 0 || fl&c07osFlag(c, "O_EXCL") != 0 {
+						good, how = true, "OpenFile with O_TRUNC/O_EXCL"
+					} else {
+						how = "OpenFile without O_TRUNC"
+					}
+				}
+			}
+		}
+	}
+	c.check(good, "Z7", key, c.ipos(nw), "the archive is written into a handle that starts empty ("+how+")",
+		"the archive is written into a handle that keeps what the destination held ("+how+"): zipping a smaller tree onto the path of an older, larger archive leaves the old central directory at the end of the file — unzipping, or the zip view, shows the old tree or fails")
+}
+
+func c07osFlag(c *Ctx, n string) int64 {
+	osp := c.Prog.ImportedPackage("os")
+	if osp == nil {
+		return 0
+	}
+	k, _ := osp.Pkg.Scope().Lookup(n).(*types.Const)
+	if k == nil {
+		return 0
+	}
+	v, _ := constant.Int64Val(k.Val())
+	return v
 }
